@@ -103,6 +103,14 @@ impl Ctx {
         self.world.wait_io_quiet();
     }
 
+    /// Id of the calling actor (0 in free-running mode, where nobody waits on ids).
+    pub fn me(&self) -> usize {
+        if self.free.is_some() {
+            return 0;
+        }
+        self.world.current_actor()
+    }
+
     /// Keep a client handle alive beyond the session without running its `Drop` now (see
     /// `World::keep`); in free-running mode it is simply leaked.
     pub fn forget<T: Send + 'static>(&self, x: T) {
